@@ -495,7 +495,8 @@ def outLoop : Nat → Conn → Stream → Writer → Int → Bool → Conn × St
         let s := { s with outmaxsent := ch.2 }
         let s := { s with outunsent := Rangeset.sub s.outunsent off e }
         let s := frameOpensStream s pnum
-        let s := if fin then { s with outclosed := .sent pnum } else s
+        -- `if len(b) < size { fin = false }`: only a frame that really carries the FIN bit marks it sent
+        let s := if wireFin then { s with outclosed := .sent pnum } else s
         if pto then (c, s, w, true)
         else if n < size then (c, s, w, false)
         else outLoop fuel c s w pnum pto
